@@ -90,6 +90,7 @@ pub fn dispatch_child(op: &str, input: &[u8]) -> String {
         "ps" => pubsub::child(input),
         "dcx" => e2esub::dcx(input),
         "ppraw1" => e2esub::child_case(input),
+        "wdecg" => wire::wdec_child(input),
         other => codec::child(other, input).unwrap_or_else(|| format!("unknown-op {other}")),
     }
 }
